@@ -129,6 +129,39 @@ let rec tree_s = function
   | Node (t, k, cs) ->
     "N(" ^ tag_s t ^ ",K" ^ ckind_s k ^ ",[" ^ String.concat ";" (List.map tree_s cs) ^ "])"
 
+
+(* inverse of [tree_s]: L(<tag>=<val>) | N(<tag>,K<k>,[t;t;...]) *)
+let tree_of_s (s : string) : tree =
+  let n = String.length s in
+  let rec find_from i c = if i >= n then failwith "tree text" else if s.[i] = c then i else find_from (i + 1) c in
+  let rec at (i : int) : tree * int =
+    if i + 1 >= n then failwith "tree text"
+    else if s.[i] = 'L' && s.[i + 1] = '(' then begin
+      let e = find_from (i + 2) '=' in
+      let c = find_from e ')' in
+      (Leaf (tag_of_s (String.sub s (i + 2) (e - i - 2)), val_of_s (String.sub s (e + 1) (c - e - 1))), c + 1)
+    end else if s.[i] = 'N' && s.[i + 1] = '(' then begin
+      let c1 = find_from (i + 2) ',' in
+      let tg = tag_of_s (String.sub s (i + 2) (c1 - i - 2)) in
+      if s.[c1 + 1] <> 'K' then failwith "tree text";
+      let k = ckind_of_s (String.sub s (c1 + 2) 1) in
+      if String.sub s (c1 + 3) 2 <> ",[" then failwith "tree text";
+      let rec kids j acc =
+        if s.[j] = ']' then (List.rev acc, j + 1)
+        else begin
+          let (t, j') = at j in
+          if s.[j'] = ';' then kids (j' + 1) (t :: acc)
+          else if s.[j'] = ']' then (List.rev (t :: acc), j' + 1)
+          else failwith "tree text"
+        end in
+      let (cs, j) = kids (c1 + 5) [] in
+      if s.[j] <> ')' then failwith "tree text";
+      (Node (tg, k, cs), j + 1)
+    end else failwith "tree text" in
+  let (t, j) = at 0 in
+  if j <> n then failwith "tree text";
+  t
+
 let items_s (l : (n list, n) sum list) : string =
   "[" ^ String.concat "," (List.map (function Inl e -> string_of_int (List.length e) | Inr _ -> "E") l) ^ "]"
 
@@ -362,12 +395,32 @@ let () =
         let (trees, left) = parse_trees toks in
         if left <> [] then failwith ("bad T line: " ^ line);
         if spec_mode then begin
+          (* impl = <bytes written> <tree read back by the real reader> <bytes of its tlv_iter re-encoding> *)
           match trees, impl with
+          | [t], [hex; rb; reenc] ->
+            let written = bytes_of_hex hex in
+            let ok_model = mon_roundtrip t written in
+            let (ok_rb, why) =
+              (match (try Some (tree_of_s rb) with _ -> None) with
+               | None -> (false, "read-back:" ^ (if rb = "P" then "panic" else if rb = "E" then "error" else "unparsable"))
+               | Some t' ->
+                 if reenc = "P" || reenc = "E" then (false, "re-encode:" ^ reenc)
+                 else if mon_read_back t t' written (bytes_of_hex reenc) then (true, "")
+                 else if mon_read_back t t' written written then (false, "tlv_iter-reencode-differs")
+                 else (false, "read-back-differs")) in
+            Printf.printf "T %s %d %s\n" id (if ok_model && ok_rb then 1 else 0)
+              (if not ok_model then "written-bytes-do-not-decode" else why)
           | [t], [hex] ->
             Printf.printf "T %s %d\n" id (if mon_roundtrip t (bytes_of_hex hex) then 1 else 0)
-          | _ -> Printf.printf "T %s 0\n" id
-        end else
-          Printf.printf "T %s %s\n" id (hex_of_bytes (encode_list trees))
+          | _ -> Printf.printf "T %s 1 not-a-single-tree\n" id
+        end else begin
+          let b = encode_list trees in
+          let rb = match decode b with ROk t -> tree_s t | RErr _ -> "E" | RPanic _ -> "P" | RFuel -> "F" in
+          let re =
+            match (match el_tag b with ROk t -> el_reencode_iter t b | RErr c -> RErr c | RPanic p -> RPanic p | RFuel -> RFuel) with
+            | ROk r -> hex_or_dash r | RErr _ -> "E" | RPanic _ -> "P" | RFuel -> "F" in
+          Printf.printf "T %s %s %s %s\n" id (hex_of_bytes b) rb re
+        end
       | "W" :: id :: rest ->
         let (toks, impl) = split_bar rest in
         let ops = List.map op_of_tok toks in
